@@ -52,6 +52,7 @@ struct Sys {
   bool polled[4] = {false, false, false, false};
   int spawned = 0;
   int loop    = 0;
+  int inplace = 0;
   bool seen_term = false;
 
   explicit Sys(const Cfg& c) : cfg(c), k(c.k) {
@@ -157,8 +158,31 @@ struct Sys {
       spawned++;
       return true;
     }
+    case 6: { // re-arm IN PLACE: what the executors do between rounds --
+              // every thread calls initializeThread() again on the detector
+              // it already holds (no init(), same thread count), then a
+              // barrier; new work exists afterwards
+      if (i != 0 || !terminated || inplace >= 1)
+        return false;
+      inplace++;
+      for (int t = 0; t < k; ++t) {
+        imp->as(t);
+        term->initializeThread();
+      }
+      imp->restore();
+      for (int t = 0; t < 4; ++t) {
+        work[t]   = 0;
+        did[t]    = false;
+        polled[t] = false;
+      }
+      spawned   = 0;
+      seen_term = false;
+      work[k - 1] = 1;
+      check_sound("in-place re-arm");
+      return true;
+    }
     default: // rearm
-      if (i != 0 || !terminated || cfg.k2 == 0 || loop >= 1)
+      if (kind != 4 || i != 0 || !terminated || cfg.k2 == 0 || loop >= 1)
         return false;
       loop++;
       arm(cfg.k2);
@@ -172,7 +196,7 @@ struct Sys {
 
   std::string key() {
     std::ostringstream o;
-    o << "L" << loop << " k" << k << " sp" << spawned << " g"
+    o << "L" << loop << "i" << inplace << " k" << k << " sp" << spawned << " g"
       << term->globalTermination() << " |";
     for (int i = 0; i < k; ++i) {
       o << " w" << work[i] << (did[i] ? "d" : "-") << (polled[i] ? "p" : "-");
@@ -192,8 +216,8 @@ struct Sys {
 };
 
 static std::string opname(int op) {
-  static const char* kinds[] = {"report", "work",  "give+1",
-                                "give-1", "rearm", "poll"};
+  static const char* kinds[] = {"report", "work",  "give+1",       "give-1",
+                                "rearm",  "poll",  "rearm-in-place"};
   return std::string(kinds[op / 4]) + "(" + std::to_string(op % 4) + ")";
 }
 
@@ -231,7 +255,7 @@ static sx::BfsCase make_case(Cfg cfg) {
   for (size_t i = 0; i < cfg.init.size(); ++i)
     n << (i ? "," : "") << cfg.init[i];
   c.name   = n.str();
-  c.nops   = 6 * 4;
+  c.nops   = 7 * 4;
   c.opname = opname;
   c.run    = [cfg](const std::vector<int>& hist) {
     std::string key;
@@ -243,7 +267,7 @@ static sx::BfsCase make_case(Cfg cfg) {
       if (!hist.empty() && !last_enabled)
         return std::string(); // op not enabled: no successor state
       key = s.key();
-      if (s.loop > 0 || s.spawned > 0)
+      if (s.loop > 0 || s.inplace > 0 || s.spawned > 0)
         sx::mark_nontrivial();
       sx::outcome(s.term->globalTermination() * 2 + (s.total() > 0));
     }
